@@ -202,6 +202,14 @@ impl Phase {
     }
 }
 
+/// Share of a progress budget that scales with the number of bytes to move: generous enough for an implementation that
+/// moves one byte per call on anything up to 1 MiB and at least 4 bytes per call on what lies beyond.  (Loops that resend
+/// data are stopped much earlier by the sink's data cap.)
+pub fn byte_budget(bytes: usize) -> u64 {
+    let b = bytes as u64;
+    2 * b.min(1 << 20) + b / 4
+}
+
 /// Frame layout of a stream: start offset and payload length of each frame.
 #[derive(Clone, Debug, Default)]
 pub struct Layout {
@@ -554,6 +562,9 @@ pub struct SinkCore {
     pub repeat_left: u32,
     /// remaining capacity (full-disk model); `None` = unbounded
     pub room: Option<usize>,
+    /// safety net: a sink that has been handed far more bytes than the whole workload contains stops the run (`cap_hit`)
+    /// instead of growing until the process is killed (a resend loop inside one poll never returns to the interpreter)
+    pub data_cap: usize,
     pub full_mode: FullMode,
     pub calls: u64,
     pub write_calls: u64,
@@ -583,6 +594,7 @@ impl SinkCore {
             lane_pos: 0,
             repeat_left: 0,
             room,
+            data_cap: usize::MAX,
             full_mode: FullMode::Error,
             calls: 0,
             write_calls: 0,
@@ -709,6 +721,10 @@ impl SinkCore {
                     }
                     n = n.min(room);
                     self.room = Some(room - n);
+                }
+                if self.data.len() + n > self.data_cap {
+                    self.cap_hit = true;
+                    return Some(Err(io::Error::new(io::ErrorKind::Other, "minisim: data cap exceeded")));
                 }
                 self.data.extend_from_slice(&buf[..n]);
                 let short = n < buf.len();
